@@ -90,6 +90,9 @@ func New(id, tier, level string) *Ctx {
 }
 
 // Thorough reports the tier.
+// Heartbeat is a no-op in the main process (see Reporter).
+func (c *Ctx) Heartbeat() {}
+
 func (c *Ctx) Thorough() bool { return c.Tier == "thorough" }
 
 // Expired reports whether the soft budget is used up; a check that stops
